@@ -136,14 +136,17 @@ def sched_part(prop, tier, seed, extra_cov=None, extra_assume=None, tlc_runs=())
         # a sample of the programs is also recorded gate by gate and validated against MPBCore.tla
         from . import corebind as cb
         nval = 24 if tier == "quick" else 600
-        sample = [x for x in scs if x["sched"]["mode"] != "free" and cb.scenario_to_config(x) is not None][:nval]
+        # (programs with very many bars are left to the monitor: MPBTrace needs over ten minutes for one of them)
+        sample = [x for x in scs if x["sched"]["mode"] != "free" and cb.scenario_to_config(x) is not None
+                  and cb.scenario_to_config(x)[0] <= 24][:nval]
         for x in sample:
             x["stats"] = True
         # in the families in which the recorded findings live every translatable program is recorded gate by gate: a hang
         # or leak is only attributed to a recorded finding if the specification, which contains the finding's mechanism,
         # reproduces the execution
         for x in scs:
-            if x["family"] in FINDING_FAMILIES and x["sched"]["mode"] != "free" and cb.scenario_to_config(x) is not None:
+            if (x["family"] in FINDING_FAMILIES and x["sched"]["mode"] != "free" and cb.scenario_to_config(x) is not None
+                    and cb.scenario_to_config(x)[0] <= 24):
                 x["stats"] = True
         traces = core.run_scenarios(binary, wd, scs)
         bad, st, tr, nev = core.run_obs(traces, wd)
